@@ -1,12 +1,13 @@
 (** Property C03 — every algorithm returns a well-formed consensus over exactly the universe.
     Status (PARTIAL): proved for the algorithms whose last step is modelled end to end — Borda (both
     variants), Copeland, KwikSort (every pivot script), PickAPerm's candidates (unified rankings), the
-    Markov-style decoding of dense bucket-id vectors.  For the exact algorithms, ParCons and BioConsert the
-    defeat-count / dictionary decoders are not theorems in this version.  Every consensus returned by the 15
+    Markov-style decoding of dense bucket-id vectors, the defeat-count decoder of the exact algorithm (on every
+    feasible point of its program), the ParCons concatenation (given well-formed sub-answers).  Not a theorem in
+    this version: BioConsert's dictionary decoder applied to the vectors its local search produces.  Every consensus returned by the 15
     configurations is judged in Coq: at least one ranking, exactly one when one is asked, non-empty pairwise
     disjoint buckets whose union is exactly the universe with element types preserved, views consistent. *)
 From Corankco Require Import Prelude Scheme Rank KemenySpec CostTable GroupSort Borda BordaProof Copeland CopelandProof
-     KwikSort KwikSortProof Markov MarkovProof.
+     KwikSort KwikSortProof Markov MarkovProof OptTheory Partition PartitionProof ConsistentProof ParConsProof ILP ILPProof.
 Local Open Scope Z_scope.
 
 Theorem C03_borda_wf : forall ub R,
@@ -40,3 +41,19 @@ Theorem C03_dense_vector_decoding : forall v,
   (forall e, In e (concat r) <-> (e < length v)%nat /\ 0 <= get v e).
 Proof. exact to_buckets_wf. Qed.
 Print Assumptions C03_dense_vector_decoding.
+
+(** the exact algorithm: whatever feasible point the solver returns, the decoder of the source yields non-empty
+    disjoint buckets over all the ids *)
+Theorem C03_exact_decoder_wf : forall n P v, (0 < n)%nat -> Feas n P v ->
+  Permutation (concat (decode n v)) (seq 0 n) /\ Forall (fun b => b <> []) (decode n v).
+Proof. intros n P v Hn F. split; [exact (proj1 (decode_spec n v))|exact (decode_nonempty n P v Hn F)]. Qed.
+Print Assumptions C03_exact_decoder_wf.
+
+(** ParCons: the concatenation of the answers of the sub-solvers is a ranking of exactly the universe *)
+Theorem C03_parcons_wf : forall K bound exact aux U P,
+  mirror K -> NoDup U -> is_partition_of U P = true -> no_back_arcs K P = true ->
+  (forall G, In G P -> wfU G (exact G) /\ score K (exact G) = opt K G) ->
+  (forall G, In G P -> wfU G (aux G)) ->
+  Permutation (elems (fst (parcons K bound exact aux P))) U.
+Proof. intros K bound exact aux U P M Nd HP HB He Ha. exact (proj1 (parcons_spec K bound exact aux M U P Nd HP HB He Ha)). Qed.
+Print Assumptions C03_parcons_wf.
